@@ -27,6 +27,15 @@ def main():
     args = sys.argv[1:]
     name = None
     skip_wt = False
+    recheck = None
+    if args and args[0] == "--recheck":
+        # tools/seedcheck.py --recheck <NAME>: run only step 2 again for a recorded seed
+        recheck = args[1]
+        d = f"/verif/seeded/{recheck}"
+        pm = json.load(open(f"{d}/meta.json"))
+        args = [d, ",".join([pm["property"]] + pm.get("also_checked", [])), "--name", recheck, "--skip-worktree"]
+        if os.path.exists(f"{d}/patch-rebased.diff"):
+            args += ["--rebased", f"{d}/patch-rebased.diff"]
     if "--name" in args:
         i = args.index("--name"); name = args[i + 1]; del args[i:i + 2]
     if "--skip-worktree" in args:
@@ -43,6 +52,8 @@ def main():
     meta_in = {}
     try:
         meta_in = json.load(open(os.path.join(seed_dir, "meta.json")))
+        if recheck:
+            meta_in = meta_in.get("agent_meta", {})
     except Exception as ex:
         meta_in = {"error": f"agent meta.json unreadable: {ex}"}
     prev = {}
@@ -89,7 +100,10 @@ def main():
     lock = open("/tmp/seedrun/.lock", "w")
     fcntl.flock(lock, fcntl.LOCK_EX)
     try:
-        sh("rsync -a --delete --exclude target --exclude .git /repo/ /tmp/seedrun/repo/")
+        # no -t: a file that differs (i.e. was patched by the previous seed) is copied back and gets
+        # a *new* mtime, so that cargo rebuilds it; with -a the restored file would carry its old
+        # mtime, cargo would consider the crate fresh and the previous seed's code would stay compiled in
+        sh("rsync -rlpgoD --checksum --delete --exclude target --exclude .git /repo/ /tmp/seedrun/repo/")
         rc, o = sh(f"patch -p1 --no-backup-if-mismatch < {rebased or patch}", cwd="/tmp/seedrun/repo")
         if rebased:
             out["checks"]["rebased_patch"] = "the agent's patch was written against an earlier /repo HEAD; the same change was re-applied by hand to the current HEAD (patch-rebased.diff) for running the checks"
@@ -128,8 +142,9 @@ def main():
     out["caught_by"] = caught
     dst = f"/verif/seeded/{name}"
     os.makedirs(dst, exist_ok=True)
-    shutil.copy(patch, os.path.join(dst, "patch.diff"))
-    shutil.copy(demo, os.path.join(dst, "demo.rs"))
+    if os.path.abspath(seed_dir) != os.path.abspath(dst):
+        shutil.copy(patch, os.path.join(dst, "patch.diff"))
+        shutil.copy(demo, os.path.join(dst, "demo.rs"))
     if rebased and os.path.abspath(rebased) != os.path.abspath(os.path.join(dst, "patch-rebased.diff")):
         shutil.copy(rebased, os.path.join(dst, "patch-rebased.diff"))
     out["needs"] = meta_in.get("needs", "")
